@@ -102,8 +102,8 @@ def scale_programs(tier):
         out.append(many_labels(L, 5, same_heart=True))
     for n in ((256, 1024, 1026, 2050) if q else (254, 256, 258, 512, 1022, 1024, 1026, 2046, 2048, 2050, 2600)):
         out.append(straight(n))
-    for K in ((128, 129, 147, 256, 300) if q else (64, 65, 128, 129, 146, 147, 148, 256, 257, 293, 300, 400)):
-        out.append(loop_program(K))            # 7 K steps: 147 iterations cross 1024 executed commands
+    for K in ((128, 129, 171, 256, 342) if q else (64, 65, 128, 129, 170, 171, 172, 256, 257, 341, 342, 400)):
+        out.append(loop_program(K))            # 6 K + 2 steps: 171 iterations cross 1024 executed commands
     # many stacks in use at once
     for n in ((17, 65, 257) if q else LADDER):
         sel = ' '.join('형.. 흑%s' % dots(i) for i in range(4, n + 1))
